@@ -53,7 +53,7 @@ def select_bases(configs, behs, rng: random.Random, limit: int):
 
 def enumerate_faults(configs, behs, tier: str) -> list[dict]:
     rng = random.Random(seed() * 31 + 8)
-    bases = select_bases(configs, behs, rng, 60 if tier == "quick" else 400)
+    bases = select_bases(configs, behs, rng, 40 if tier == "quick" else 400)
     out: list[dict] = []
 
     def record(pcfg, events, fault, **kw):
